@@ -446,6 +446,18 @@ def gen_implied_rate_with_cancel(rng):
     return Xact(posts)
 
 
+def gen_implied_rate_with_virtual(rng):
+    """two commodities of opposite sign and no cost (an implied rate balances them) beside a (virtual) posting in one of
+    the two commodities: it takes no part in the balance, whichever commodity comes first"""
+    c1, c2 = rng.sample(list(COMMS), 2)
+    a = Amt(F(rng.randrange(1, 500)), 0, c1)
+    b = Amt(F(rng.randrange(1, 500)), 0, c2)
+    v = Amt(F(rng.randrange(1, 500)), 0, rng.choice([c1, c2]))
+    posts = [Post('Assets:Cash', 'R', a.neg()), Post('Assets:Broker:X', 'R', b), Post('V:Expenses:Food', 'V', v)]
+    rng.shuffle(posts)
+    return Xact(posts)
+
+
 def add_null(rng, x):
     """replace one must-balance cost-free posting's amount by an elided one (keeps it balanced)"""
     cands = [i for i, p in enumerate(x.posts) if p.must_balance() and p.amt is not None and p.cost is None and p.lot is None]
